@@ -247,6 +247,7 @@ type side struct {
 	flate  bool // negotiated
 	state  ws.State
 	own    []byte               // a write buffer the session owns and reuses
+	fw     *wsflate.Writer      // the session's compression writer on the default helper's compressor: Reset, Write, Flush, Close per message
 	cw     *wsutil.CipherWriter // the session's CipherWriter, re-armed with Reset for every frame it sends that way
 	kept   []keptBuf
 }
@@ -892,9 +893,22 @@ func (s *side) send(i int, ex exchange) bool {
 		w := wsutil.GetWriter(s.conn, s.state|ws.StateExtended, opOf(ex), ex.BufSize)
 		w.SetExtensions(&ms)
 		fw := wsflate.NewWriter(w, flateCompressor)
+		if s.sc.Seed%3 == 0 {
+			// A long-lived compression writer of the session, built on the
+			// default helper's compressor and closed after every message.
+			if s.fw == nil {
+				s.fw = wsflate.NewWriter(w, wsflate.DefaultHelper.Compressor)
+			} else {
+				s.fw.Reset(w)
+			}
+			fw = s.fw
+		}
 		_, err = fw.Write(p)
 		if err == nil {
 			err = fw.Flush()
+		}
+		if err == nil && fw == s.fw {
+			err = fw.Close()
 		}
 		if err == nil {
 			err = w.Flush()
